@@ -20,6 +20,7 @@ type Contract struct {
 	OnMapUpdates []*OnStore // assertions at m[k] = v where m was loaded from the named field ($key, $value, $was, $owner)
 	CountStores []string // struct field names whose stores are counted in ghost $nstore_<field>
 	CountCalls []string // callee names whose calls are counted in ghost $ncall_<name>
+	MustDefer []string // callee names that must be called through defer (so that they also run on a panicking exit)
 	NoStores []string // struct field names that the function (and what it inlines) must never store to
 	FullLoops []string // loop keys: the loop is left only through its header test
 }
